@@ -5,7 +5,10 @@ summary (`_c06_helpers`: per path the condition and the returned term, private h
 "collection of items, each with its own condition").  Rules then either inspect the terms (which separator constants
 does the written template contain, which call wraps a value, which offset is applied to the exclusive stop) or evaluate
 the summary of a small pure string function - or of the per-element part of a parser loop - on an exhaustive set of
-short strings over the characters that matter (bounded check of the round trip through the two summaries).
+short strings over the characters that matter (bounded check of the round trip through the two summaries).  Two laws
+need the loops themselves (the scanner of parse_options_header; the item-to-item state of parse_range_header): R6.7 and
+R6.8 evaluate writer and reader as whole functions, statement by statement over constants (`_c06_helpers.Machine`), on
+finite families of values chosen by shape class.
 """
 
 from __future__ import annotations
@@ -39,14 +42,28 @@ LEVEL_TEXT = (
     "unless the key ends in '*', parse_etags routes by the W/ group and compares only the raw group with '*', "
     "unquote_etag inverts quote_etag on a bounded sample; (R6.6) the value returned by each typed header's to_header / "
     "parser contains the call of the paired shared dumper / parser, Basic credentials are b64(user ':' pass) both ways, "
-    "and the auth scheme is stored lower-cased. It decides these necessary conditions, not the round-trip law over all "
-    "values (dates, base64 credentials, cache-control typing are delegated to library code and not decided; the scanner "
-    "loop of parse_options_header and the stateful validation in parse_range_header are not evaluated)."
+    "and the auth scheme is stored lower-cased; (R6.7) whole-function law, evaluated statement by statement on constants "
+    "(scanner loop of parse_options_header included: key, token or quoted value, advance to the next section): "
+    "parse_options_header(dump_options_header(h, d)) == (h, d) for every d of a finite family - one option with every "
+    "string up to length 3 (thorough tier: 4) over {backslash, quote, letter, ';', ',', '=', space}, options whose quoted "
+    "value contains a delimiter followed by a parameter look-alike (own key, another option's key, a new key, RFC 2231 "
+    "forms) next to a genuine option, and two / three options with delimiters and escapes in the values; (R6.8) "
+    "whole-function law on the shape classes of the typed range values: parse_range_header(Range(u, rs).to_header()) "
+    "and parse_content_range_header(ContentRange(..).to_header()) build an object of the same class with equal "
+    "attributes, for closed ranges from byte 0 and from a positive byte (one byte long and longer), open-ended ranges "
+    "from 0 and from a positive byte, suffix ranges, several ranges ending closed / open-ended / suffix, and content "
+    "ranges with start/stop and length set or unset (length 0 included). It decides these necessary conditions, not the "
+    "round-trip law over all values: R6.7 / R6.8 are decided for the members of their families only (a finite sample of "
+    "the domain chosen by shape class, not all strings / integers; non-ASCII text, '*'-suffixed keys and %-encoded "
+    "continuations are not in the families); dates, base64 credentials and cache-control typing are delegated to "
+    "library code and not decided; the item loops of parse_list_header / parse_dict_header are decided per item (R6.2), "
+    "not as whole functions."
 )
 TRUSTED = [
     "CPython ast and re._parser; semantics of builtin str / bytes / frozenset methods and of `re` applied to constants folded from the source",
     "RFC 9110 section 5.6.2 token / 5.6.4 quoted-string tables embedded as constants",
     "urllib.request.parse_http_list keeps the quotes of a quoted item and drops the backslash of an escaped character inside them",
+    "the Machine of _c06_helpers (R6.7 / R6.8): its reading of Python statements and expressions over constants; it never imports the package - functions and classes of werkzeug exist only as syntax trees, instances as attribute records",
 ]
 ASSUMPTIONS = ["keys are tokens free of '*' (as the property states)", "option values do not contain the literal %22"]
 
@@ -153,6 +170,8 @@ def run(ctx: Ctx) -> None:
         "R6.4": "Range / Content-Range writers print stop-1 and parsers store value+1 (offsets cancel)",
         "R6.5": "separator constants written by serialisers are the ones their parsers cut on; key=value items quote the value; ETag forms are read back",
         "R6.6": "typed header to_header / parser return the result of the paired shared dumper / parser; Basic credentials and the scheme normal form agree",
+        "R6.7": "whole-function law on a finite family: parse_options_header(dump_options_header(h, options)) == (h, options) for option values that place every delimiter, escape and parameter look-alike inside the quoted value (the scanner loop - key, value, advance to the next section - is evaluated statement by statement)",
+        "R6.8": "whole-function law on a finite family: the text Range.to_header / ContentRange.to_header writes is read back by parse_range_header / parse_content_range_header as an equal object, for every shape class of the value (closed, open-ended from 0 and from a positive byte, suffix, several ranges; start/stop and length set or unset)",
     }.items():
         ctx.rule(rid, text)
 
@@ -459,6 +478,128 @@ def run(ctx: Ctx) -> None:
     wr = any(o.term != NONE and any(_is_call_to(y, "int") for y in walk(o.term)) for o in DA.returns)
     rd = any(_is_call_to(x, "int") and x[2] and x[2][0][0] == "p" for o in PA.returns for x in walk(o.term))
     ctx.ob("R6.6", "age is written and read as a base-10 integer", wr and rd, f"dump_age returns str(int(..))={wr}; parse_age builds on int(value)={rd}", DA.fi, DA.fi.node, "age pairing")
+
+    machine = H.Machine(repo, folder)
+    _options_law(ctx, machine, S, po_alpha, 3 if len(po_alpha) <= 8 else 2)
+    _range_law(ctx, machine, S, repo)
+
+
+def run_thorough(ctx: Ctx) -> None:
+    """the option-header law of R6.7 on the exhaustive family one character longer than the quick tier's."""
+    repo = ctx.repo
+    folder = Folder(repo)
+    sums = Summaries(repo, folder)
+
+    def S(fq: str) -> Summary:
+        f = repo.func(fq)
+        ctx.saw(f)
+        return sums.of(f)
+
+    alphabet = set(BASE_ALPHABET)
+    for fq in ("http.quote_header_value", "http.unquote_header_value", "http.parse_options_header"):
+        for a_, b_ in _replace_consts(S(fq).terms_deep()):
+            if (a_, b_) != ("%22", '"'):
+                alphabet |= set(a_) | set(b_)
+    _options_law(ctx, H.Machine(repo, folder), S, alphabet, 4 if len(alphabet) <= 7 else 3, thorough=True)
+
+
+# ---------------------------------------------------------------------------------------------------------------
+# R6.7 / R6.8: whole-function laws on finite families (evaluated by the Machine of _c06_helpers)
+
+
+def _lookalike_values() -> list[str]:
+    """values that carry, inside the (quoted) value, text shaped like a further parameter: <delimiter><blank?><key>=<value>."""
+    out: list[str] = []
+    for pre in ("", "a"):
+        for delim in (";", ","):
+            for ws in ("", " "):
+                for key in ("k", "j", "x"):
+                    for val in ("c", '"c"', ""):
+                        out.append(f"{pre}{delim}{ws}{key}={val}")
+    out += ["a; k*=utf-8''c", "a; j*0=c", "a;x*=c", "a; j=c; k=d", 'a"; j=c', "a\\; j=c", 'a\\"; j=c', "a;j=c;", "a ;j=c", "j=c", "a=b; j=c"]
+    return out
+
+
+def _options_law(ctx: Ctx, m: H.Machine, S: t.Callable[[str], Summary], alphabet: set[str], maxlen: int, thorough: bool = False) -> None:
+    D = S("http.dump_options_header").fi
+    P = S("http.parse_options_header").fi
+    head = "h"
+
+    def round_trip(d: dict[str, str]) -> tuple[t.Any, t.Any]:
+        wire = m.outcome(lambda: m.run(D, [head, dict(d)]))
+        if not isinstance(wire, str):
+            return wire, ("<the writer gives no text>",)
+        return wire, m.outcome(lambda: m.run(P, [wire]))
+
+    def check(instance: str, construct: str, family: list[dict[str, str]], what: str) -> int:
+        bad = None
+        for d in family:
+            wire, got = round_trip(d)
+            if got != (head, d):
+                bad = f"e.g. dump_options_header({head!r}, {d!r}) writes {wire!r}, which parse_options_header reads as {got!r}"
+                break
+        ctx.ob("R6.7", instance, bad is None, f"{len(family)} option dicts ({what}): parse_options_header(dump_options_header(h, d)) == (h, d); {bad or 'all read back'}", P, P.node, construct)
+        return len(family)
+
+    if thorough:
+        singles = [{"k": v} for v in H.samples(alphabet, maxlen) if len(v) == maxlen]
+        check(f"one option, every value of length {maxlen} over the delimiter alphabet", "options law exhaustive", singles, f"all strings of length {maxlen} over {sorted(alphabet)}")
+        return
+    n = 0
+    singles = [{}] + [{"k": v} for v in [""] + H.samples(alphabet, maxlen)]
+    n += check("one option: every short value over the delimiter alphabet is read back", "options law single", singles, f"all strings up to length {maxlen} over {sorted(alphabet)}")
+    look = _lookalike_values()
+    fam = [{"j": "b", "k": v} for v in look] + [{"k": v, "j": "b"} for v in look]
+    n += check("a delimiter followed by a parameter look-alike inside a quoted value adds / overwrites no option", "options law look-alike", fam, "values like 'a; j=c' next to a genuine option j")
+    small = ["a", "", "a b", ";", "a;b", '"', "\\", "=", "a=b", ",", " ", '\\"', '";', "a\\"]
+    fam = [{"k": v1, "j": v2} for v1 in small for v2 in ("b", "a;b", '"')] + [{"k": "a", "j": "b", "x": v} for v in small]
+    n += check("several options: each one is found after the previous value (token or quoted) was consumed", "options law pair", fam, "two and three options, values with delimiters and escapes")
+    ctx.floor("R6.7", "option dicts evaluated", n, 200)
+
+
+_RANGE_CLASSES: list[tuple[str, str, list[list[tuple[int, int | None]]]]] = [
+    ("closed ranges (first, stop) starting at byte 0 and at a positive byte", "range law closed", [[(0, 1)], [(0, 10)], [(1, 2)], [(9, 10)], [(10, 25)], [(100, 1000)]]),
+    ("open-ended ranges (first, None) starting at byte 0 and at a positive byte", "range law open-ended", [[(0, None)], [(1, None)], [(10, None)], [(999, None)]]),
+    ("suffix ranges (-n, None)", "range law suffix", [[(-1, None)], [(-10, None)], [(-500, None)]]),
+    ("several ranges, the last one closed / open-ended / suffix", "range law multi", [[(0, 1), (1, 2)], [(0, 2), (4, 6)], [(0, 2), (4, None)], [(0, 2), (-1, None)], [(1, 3), (5, 7), (9, None)], [(0, 1), (2, 3), (-5, None)]]),
+]
+_CONTENT_RANGES: list[tuple[int | None, int | None, int | None]] = [(0, 1, 1), (0, 5, 10), (3, 10, 10), (0, 5, None), (7, 8, None), (10, 11, 100), (None, None, 10), (None, None, 0), (None, None, None)]
+
+
+def _range_law(ctx: Ctx, m: H.Machine, S: t.Callable[[str], Summary], repo: t.Any) -> None:
+    n = 0
+    for cfq, pfq, label, fams in (
+        ("datastructures.range.Range", "http.parse_range_header", "Range", [(inst, con, [(u, [list(r)]) for u in ("bytes", "items") for r in rs]) for inst, con, rs in _RANGE_CLASSES]),
+        ("datastructures.range.ContentRange", "http.parse_content_range_header", "Content-Range", [("start/stop and length set or unset", "content-range law", [("bytes", list(x)) for x in _CONTENT_RANGES])]),
+    ):
+        ci = repo.cls(cfq)
+        _, wf = repo.lookup(ci, "to_header")
+        if not isinstance(wf, FuncInfo):
+            raise AnalysisError(f"{cfq}.to_header not found")
+        ctx.saw(wf)
+        Pf = S(pfq).fi
+        for inst, construct, members in fams:
+            bad = None
+            for units, rest in members:
+                args = [units] + [list(x) if isinstance(x, list) else x for x in rest]
+                try:
+                    obj = m.run(ci, args)
+                except H.ProgramRaise as r:
+                    raise AnalysisError(f"{cfq}({', '.join(map(repr, args))}) raises {r.kind}: the constructor rejects a member of the value family")
+                want = H.snapshot(obj)
+                text = m.outcome(lambda: m.method(obj, "to_header"))
+                got = m.outcome(lambda: m.run(Pf, [text])) if isinstance(text, str) else ("<the writer gives no text>",)
+                n += 1
+                if got != want and bad is None:
+                    bad = f"e.g. {ci.name}({', '.join(map(repr, args))}).to_header() writes {text!r}, which {Pf.name} reads as {_short(got)}"
+            ctx.ob("R6.8", f"{label}: {inst}", bad is None, f"{len(members)} values: {Pf.name}(x.to_header()) equals x (same class, same attributes); {bad or 'all read back'}", wf, wf.node, construct)
+    ctx.floor("R6.8", "range values evaluated", n, 40)
+
+
+def _short(got: t.Any) -> str:
+    if isinstance(got, tuple) and len(got) == 3 and got[0] == "<instance>":
+        return f"{got[1].rsplit('.', 1)[-1]}({', '.join(f'{k}={v!r}' for k, v in got[2])})"
+    return repr(got)
 
 
 # ---------------------------------------------------------------------------------------------------------------
